@@ -82,6 +82,25 @@ PROPS = {
             {"pkg": "app", "run": "^TestVerif_C19_Chain$", "checks": {Q: 30, T: 400}, "shards": {Q: 2, T: 16}, "steps": 60, "timeout": {Q: 600, T: 3000}, "shrinktime": "30s"},
         ],
     },
+    "C10": {
+        "level": "exploration", "floor": 0.6,
+        "technique": "property-based testing: split/merge/permute and near-miss generators vs an independent multiset oracle (both directions); metamorphic hash relations (key-shuffled JSON round trip, every single-field edit by reflection); version gate through the real manifest manager (C20 harness); native fuzzing of the JSON manifest decoder in thorough",
+        "level_text": "On-chain groups are generated from a small palette so that equal units recur; manifests are derived by splitting, merging and permuting services (must be accepted by both cross-validation entry points) and by one small alteration (count, cpu/memory/storage by one unit, one attribute, global<->local, port 80<->81, group renamed/added/dropped: must be rejected); an independent multiset oracle decides both directions. ManifestVersion must be invariant under key-shuffled JSON round trips and change under every single-field edit enumerated by reflection. The hash-vs-chain-version gate is exercised against the real manager in the C20 harness.",
+        "level_note": "Trusted: the oracle's definition of endpoint kinds (TCP, global, external port 80 = shared HTTP); counts >= 1 (count-0 units are unreachable for real callers).",
+        "assumptions": ["manifests and groups stay inside what ValidateManifest / on-chain validation admit"],
+        "units": [
+            {"pkg": "validation", "run": "^TestVerif_C10_CrossValidation$", "checks": {Q: 4000, T: 100000}, "shards": {Q: 2, T: 16}, "timeout": {Q: 600, T: 3000}},
+            {"pkg": "validation", "run": "^TestVerif_C10_Hash$", "checks": {Q: 300, T: 5000}, "shards": {Q: 2, T: 16}, "timeout": {Q: 600, T: 3000}},
+        ],
+    },
+    "C18": {
+        "level": "exploration", "floor": 0.4,
+        "technique": "property-based testing: structural SDL v2 document generator with generated YAML key permutations; determinism, faithfulness against the generator's own tree, and cross-validation oracles; native fuzzing of sdl.Read in thorough",
+        "level_text": "Documents (1-4 services with image/command/args/env/exposes, 1-3 compute profiles in integral and decimal unit forms, 1-3 placements with attributes/signedBy/pricing, deployment map) are emitted as YAML twice - canonical and with every mapping's keys permuted - and read repeatedly: groups, manifest and version must be identical; every declared field must appear unchanged in manifest and groups (decimal quantities within one unit: the parser truncates a float product); the manifest must validate against the groups of the same document.",
+        "level_note": "Trusted: the harness's YAML emitter; a document Read rejects is skipped (counted), a panic/error on an invalid document is a rejection.",
+        "assumptions": ["documents are SDL v2 produced by the structural generator; no include directives"],
+        "units": [{"pkg": "sdl", "run": "^TestVerif_C18$", "checks": {Q: 1500, T: 40000}, "shards": {Q: 2, T: 16}, "timeout": {Q: 600, T: 3000}, "shrinktime": "30s"}],
+    },
     "C15": {
         "level": "exploration",
         "technique": "property-based testing: rapid state machine vs per-subscriber FIFO model + generated concurrent runs with schedule-independent order oracle",
